@@ -10,6 +10,11 @@
 // come from a case file written by vf/oracles/c08.py (part "shlex").
 //
 // Parts (--arg only=<part>): split join trim misc comment args random printf wprintf shlex
+//
+// This TU instantiates the generic templates (join, strip_*) only with the template arguments the library
+// itself uses or documents (std::string; deque<std::string> + const char*).  Less common instantiations
+// (wstring strip_*, join over vector/list with char/std::string delimiters) are in c08_wide.cc, a separate
+// stage with optional_build, so that a tree on which those no longer compile still gets the main check.
 #include <ctype.h>
 #include <errno.h>
 #include <wchar.h>
@@ -92,36 +97,9 @@ extern "C" int __wrap_vswprintf(wchar_t* buf, size_t n, const wchar_t* f, va_lis
 // ================================================================================================
 // small helpers
 
-static uint64_t pow_sum(uint64_t base, unsigned maxlen) {  // number of strings of length 0..maxlen
-  uint64_t t = 0, p = 1;
-  for (unsigned k = 0; k <= maxlen; k++) {
-    t += p;
-    p *= base;
-  }
-  return t;
-}
-
-// idx -> string over alphabet (shorter strings first)
-static void decode(uint64_t idx, const char* alpha, unsigned base, string& out) {
-  unsigned len = 0;
-  uint64_t p = 1;
-  while (idx >= p) {
-    idx -= p;
-    p *= base;
-    len++;
-  }
-  out.resize(len);
-  for (unsigned k = 0; k < len; k++) {
-    out[len - 1 - k] = alpha[idx % base];
-    idx /= base;
-  }
-}
-
-static wstring widen(const string& s) {
-  wstring w(s.size(), L'\0');
-  for (size_t i = 0; i < s.size(); i++) w[i] = (wchar_t)(unsigned char)s[i];
-  return w;
-}
+using R::decode;
+using R::pow_sum;
+using R::widen;
 
 enum Shape { SH_EMPTY, SH_NODELIM, SH_ONLY, SH_LEADING, SH_TRAILING, SH_BOTH, SH_INNER, NSHAPES };
 static const char* SHAPE_NAMES[NSHAPES] = {"empty", "no-delim", "only-delims", "leading-delim", "trailing-delim",
@@ -241,112 +219,6 @@ static void reference_self_test() {
 }
 
 // ================================================================================================
-// join (direct) — every overload against join_ref
-
-static uint64_t join_cls[3][8][3];  // container x delimiter kind x first-item shape
-static const char* CONT_NAMES[3] = {"vector", "deque", "list"};
-static const char* DK_NAMES[8] = {"char", "char-nul", "cstr", "cstr-empty", "cstr-long", "string", "string-with-nul", "literal"};
-
-template <typename Cont>
-static void join_one(int ci, const Cont& items, const vector<string>& flat) {
-  int fs = items.empty() ? 0 : (items.begin()->empty() ? 1 : 2);
-  auto bad = [&](int dk, const string& dshow, const string& got, const string& want) {
-    bool first_empty = !flat.empty() && flat[0].empty();
-    C->violation(first_empty ? "join:first-item-empty" : "join:other",
-        first_empty ? "join drops the delimiter that follows an empty first item" : "join(items, delim) != items interleaved with delim",
-        fmt("join(%s<string>%s, %s /*%s*/) returned %s, expected %s", CONT_NAMES[ci], esc_list(flat).c_str(), dshow.c_str(), DK_NAMES[dk],
-            esc(got).c_str(), esc(want).c_str()));
-  };
-#define JOIN_CASE(dk, delim_lvalue, delim_as_string, show)                        \
-  do {                                                                            \
-    C->evaluations++;                                                             \
-    C->crumb_n("join", ci, dk, flat.size());                                      \
-    PZ();                                                                         \
-    string got = phosg::join(items, delim_lvalue);                                \
-    string want = R::join_ref(flat.begin(), flat.end(), string(delim_as_string)); \
-    if (got != want) bad(dk, show, got, want);                                    \
-    join_cls[ci][dk][fs]++;                                                       \
-  } while (0)
-  char dc = ',';
-  JOIN_CASE(0, dc, string(1, ','), "','");
-  char dz = '\0';
-  JOIN_CASE(1, dz, string(1, '\0'), "'\\0'");
-  const char* cs = ",";
-  JOIN_CASE(2, cs, ",", "(const char*)\",\"");
-  const char* ce = "";
-  JOIN_CASE(3, ce, "", "(const char*)\"\"");
-  const char* cl = ", ";
-  JOIN_CASE(4, cl, ", ", "(const char*)\", \"");
-  string ss = ";";
-  JOIN_CASE(5, ss, ";", "std::string(\";\")");
-  const string sz("\0,", 2);
-  JOIN_CASE(6, sz, sz, "std::string(\"\\0,\", 2)");
-  JOIN_CASE(7, "--", "--", "\"--\"");
-#undef JOIN_CASE
-  // delimiter-less overload
-  C->evaluations++;
-  PZ();
-  string got = phosg::join(items);
-  string want;
-  for (const auto& it : flat) want += it;
-  if (got != want)
-    C->violation("join:no-delimiter", "join(items) != concatenation", fmt("join(%s<string>%s) returned %s", CONT_NAMES[ci], esc_list(flat).c_str(), esc(got).c_str()));
-}
-
-static void join_items(const vector<string>& flat) {
-  join_one(0, flat, flat);
-  join_one(1, deque<string>(flat.begin(), flat.end()), flat);
-  join_one(2, list<string>(flat.begin(), flat.end()), flat);
-}
-
-static void join_suite(vf::Rng& r) {
-  static const string ITEMS[5] = {"", "a", ",", "ab", string(1, '\0')};
-  unsigned maxn = C->qt(4u, 6u);
-  uint64_t total = pow_sum(5, maxn), idx = 0;
-  for (idx = 0; idx < total; idx++) {
-    if (!C->mine(idx)) continue;
-    // decode list of item indices
-    uint64_t x = idx, p = 1;
-    unsigned len = 0;
-    while (x >= p) {
-      x -= p;
-      p *= 5;
-      len++;
-    }
-    vector<string> flat(len);
-    for (unsigned k = 0; k < len; k++) {
-      flat[len - 1 - k] = ITEMS[x % 5];
-      x /= 5;
-    }
-    join_items(flat);
-  }
-  // random: long items, many items
-  uint64_t n = C->qt<uint64_t>(400, 20000) / C->nshards + 1;
-  for (uint64_t i = 0; i < n; i++) {
-    size_t cnt = r.below(r.chance(1, 8) ? 300 : 8);
-    vector<string> flat(cnt);
-    for (auto& it : flat) {
-      switch (r.below(4)) {
-        case 0: break;
-        case 1: it = r.bytes(r.below(4)); break;
-        case 2: it = r.bytes(r.below(40)); break;
-        default: it = r.bytes(r.below(r.chance(1, 10) ? 4097 : 200)); break;
-      }
-    }
-    join_items(flat);
-  }
-  for (int c = 0; c < 3; c++)
-    for (int d = 0; d < 8; d++)
-      for (int f = 0; f < 3; f++)
-        if (join_cls[c][d][f]) {
-          static const char* FS[3] = {"no-items", "first-empty", "first-nonempty"};
-          C->cls(fmt("join:%s:%s:%s", CONT_NAMES[c], DK_NAMES[d], FS[f]), join_cls[c][d][f]);
-          join_cls[c][d][f] = 0;
-        }
-  C->cls("join:no-delimiter");
-}
-
-// ================================================================================================
 // split / split(wstring) / split_context / join∘split on one (s, d, ms)
 
 struct CtxInfo {
@@ -354,43 +226,7 @@ struct CtxInfo {
   bool valid = false;
 };
 
-static void composite_join(const char* what, const string& s, char d, size_t ms, const vector<string>& pieces, unsigned rot) {
-  // join(split(s, d), d) == s with the delimiter given as char / C string / std::string (rotating)
-  C->evaluations++;
-  string joined;
-  const char* kind;
-  switch (d == '\0' ? (rot % 2) * 2 : rot % 3) {
-    case 0: {
-      char dd = d;
-      PZ();
-      joined = phosg::join(pieces, dd);
-      kind = "char";
-      break;
-    }
-    case 1: {
-      char z[2] = {d, 0};
-      const char* p = z;
-      PZ();
-      joined = phosg::join(pieces, p);
-      kind = "const char*";
-      break;
-    }
-    default: {
-      string ds(1, d);
-      PZ();
-      joined = phosg::join(pieces, ds);
-      kind = "std::string";
-      break;
-    }
-  }
-  if (joined != s) {
-    bool first_empty = !pieces.empty() && pieces[0].empty();
-    C->violation(fmt("join-%s:inverse:%s", what, first_empty ? "first-piece-empty" : "other"),
-        fmt("join(%s(s, d, max_splits), d) != s", what),
-        fmt("s=%s d=%s (%s delimiter) max_splits=%s: %s gave %s, join gave %s", esc(s).c_str(), esc_ch(d).c_str(), kind, ms_str(ms).c_str(), what,
-            esc_list(pieces).c_str(), esc(joined).c_str()));
-  }
-}
+#include "c08_join.hh"
 
 static void split_case(const string& s, const wstring* ws, char d, size_t ms, const R::Scan* sc, uint64_t crumb_id, unsigned rot) {
   // ---- plain split
@@ -539,14 +375,7 @@ static void trim_one(const string& s, uint64_t id, bool all_offsets, vf::Rng* r,
   STRIP_CASE("strip_leading_whitespace", phosg::strip_leading_whitespace, R::strip_leading_ws(s));
   STRIP_CASE("strip_whitespace", phosg::strip_whitespace, R::strip_ws(s));
 #undef STRIP_CASE
-  {
-    C->evaluations++;
-    wstring w = widen(s), w0 = w;
-    PZ();
-    phosg::strip_trailing_zeroes(w);
-    if (w != R::strip_trailing_zeroes(w0))
-      C->violation(fmt("strip_trailing_zeroes-wstring:%s", shp), "wide result differs", fmt("strip_trailing_zeroes(%s) gave %s", esc(w0).c_str(), esc(w).c_str()));
-  }
+  // (the std::wstring instantiations of the generic strip_* templates live in c08_wide.cc)
   cls[string("strip:") + shp]++;
 
   // skip_* : std::string overload sees the whole string, const char* overload the C string
@@ -1061,16 +890,6 @@ static void random_part(vf::Rng& r) {
     {
       string s = gen_string(r, 4096, "/*\n/*");
       comment_one(s, id, cls);
-      if (r.chance(1, 16)) {
-        C->evaluations++;
-        wstring w = widen(s), w0 = w;
-        bool unterminated;
-        wstring want = R::strip_comments(w0, unterminated);
-        PZ();
-        phosg::strip_multiline_comments(w, true);
-        if (w != want) C->violation("strip_multiline_comments-wstring:value", "wide result differs from reference", esc(w0));
-        cls["comments:wstring"]++;
-      }
     }
     // ---- prefix / suffix / case
     {
@@ -1131,6 +950,17 @@ static string via_vprintf(const char* f, ...) {
   string r = phosg::string_vprintf(f, va);
   va_end(va);
   return r;
+}
+
+// where the NUL characters of an expected output are
+template <typename Ch>
+static const char* nul_shape(const Ch* p, size_t n) {
+  size_t k = 0;
+  for (size_t i = 0; i < n; i++) k += (p[i] == 0);
+  if (k == 0) return "none";
+  if (k == n) return "only-nuls";
+  if (k > 1) return "several";
+  return p[0] == 0 ? "at-start" : p[n - 1] == 0 ? "at-end" : "in-middle";
 }
 
 static const char* len_class(size_t n) {
@@ -1209,6 +1039,7 @@ static void printf_part(vf::Rng& r) {
       ok = printf_check("string_vprintf", what.c_str(), stale, stale && okv0, threw, why, got, want);  \
       if (!stale) okv0 = ok;                                                                           \
       C->cls(fmt("printf:errno-%s:%s", errno_name(stale), len_class(want.size())));                    \
+      if (!stale) C->cls(fmt("printf:output-nul:%s", nul_shape(want.data(), want.size())));           \
     }                                                                                                  \
   } while (0)
     PF("\"%s\", str(L)", "%s", ap);
@@ -1220,6 +1051,16 @@ static void printf_part(vf::Rng& r) {
     PF("\"a%cb%s\", 0, str(L)", "a%cb%s", 0, ap);
     PF("\"%s%%%c\", str(L), 0", "%s%%%c", ap, 0);
     PF("\"%0*llx\", L, ~0ull", "%0*llx", iL, ~0ull);
+    // output containing NUL bytes: at the start, in the middle, at the end, several, only NULs
+    PF("\"%c%s\", 0, str(L)", "%c%s", 0, ap);
+    PF("\"%.*s%c%s\", L/2, str(L), 0, str(L)", "%.*s%c%s", iL / 2, ap, 0, ap);
+    PF("\"%s%c\", str(L), 0", "%s%c", ap, 0);
+    PF("\"%c%s%c%s%c\", 0, str(L), 0, str(L), 0", "%c%s%c%s%c", 0, ap, 0, ap, 0);
+    PF("\"%c%*d\", 0, L, 5", "%c%*d", 0, iL, 5);
+    if (L <= 3) {
+      PF("\"%c\", 0", "%c", 0);
+      PF("\"%c%c%c\", 0, 0, 0", "%c%c%c", 0, 0, 0);
+    }
     if (li == 3) {
       PF("\"\"", "");
       PF("\"%%\"", "%%");
@@ -1266,6 +1107,7 @@ static bool wprintf_check(const string& what, size_t fmt_len, int stale, bool er
         pre + fmt("wstring_printf(%s): got %zu chars %s, expected %zu chars %s", what.c_str(), got.size(), esc(got, 30).c_str(), want.size(), esc(want, 30).c_str()));
   C->cls(fmt("wprintf:%s:%s", fit, len_class(want.size())));
   C->cls(fmt("wprintf:errno-%s:%s", errno_name(stale), fit));
+  if (!stale) C->cls(fmt("wprintf:output-nul:%s", nul_shape(want.data(), want.size())));
   return !W.verdict && !threw && got == want;
 }
 
@@ -1286,7 +1128,7 @@ static void wprintf_part() {
     size_t L = lens[li];
     wstring a(L, L'w');
     for (size_t i = 0; i < L; i++) a[i] = (wchar_t)(L'a' + (i % 26));
-    size_t cap = 2 * L + 64;
+    size_t cap = 2 * L + 64;  // the longest format below prints wstr(L) twice
 #define WPF_FIRST_(a, ...) a
 #define WPF_FIRST(...) WPF_FIRST_(__VA_ARGS__, 0)
 #define WPF(desc, ...)                                                                                   \
@@ -1317,6 +1159,16 @@ static void wprintf_part() {
     WPF("L\"[%*d]\", L, 42", L"[%*d]", (int)L, 42);
     WPF("L\"%ls=%d\", wstr(L), 12345", L"%ls=%d", a.c_str(), 12345);
     WPF("L\"%-*ls|\", L, L\"x\"", L"%-*ls|", (int)L, L"x");
+    // output containing L'\\0': at the start, in the middle, at the end, several, only NULs (%lc and %c)
+    WPF("L\"%lc%ls\", 0, wstr(L)", L"%lc%ls", (wint_t)0, a.c_str());
+    WPF("L\"%ls%lc%ls\", wstr(L), 0, wstr(L)", L"%ls%lc%ls", a.c_str(), (wint_t)0, a.c_str());
+    WPF("L\"%ls%lc\", wstr(L), 0", L"%ls%lc", a.c_str(), (wint_t)0);
+    WPF("L\"%lc%ls%c%ls%lc\", 0, wstr(L), 0, wstr(L), 0", L"%lc%ls%c%ls%lc", (wint_t)0, a.c_str(), 0, a.c_str(), (wint_t)0);
+    WPF("L\"%c%*d\", 0, L, 5", L"%c%*d", 0, (int)L, 5);
+    if (L <= 3) {
+      WPF("L\"%lc\", 0", L"%lc", (wint_t)0);
+      WPF("L\"%lc%lc%c\", 0, 0, 0", L"%lc%lc%c", (wint_t)0, (wint_t)0, 0);
+    }
     if (li == 0) {
       WPF("L\"\"", L"");
       WPF("L\"abc\"", L"abc");
